@@ -264,4 +264,41 @@ example : (exportHistory [47, 111] [([46, 46, 47, 120], [46, 98, 109, 112]), ([4
     [[46, 46, 95, 120, 46, 48, 46, 98, 109, 112], [46, 46, 95, 120, 46, 50, 46, 98, 109, 112],
      [46, 46, 95, 120, 46, 106, 112, 103]] := by decide +kernel
 
+/-- **cmap_dirs_absolute.** Where the CMap lookup searches when `CMAP_PATH` is not set: the regenerated default and
+    `<package>/cmap` are absolute directories, so for a package installed at an absolute path every probed path is
+    absolute — it cannot depend on the process's working directory — and lies directly inside one of these two. -/
+theorem C15_cmap_dirs_absolute (pkgdir name p : Bytes) (hpkg : isAbs pkgdir = true)
+    (hp : p ∈ cmapProbes (cmapDirs none pkgdir) name) :
+    isAbs p = true ∧ (DirectlyIn Gen.PathGen.cmapPathDefault p ∨ DirectlyIn (join pkgdir Gen.PathGen.cmapPkgSubdir) p) := by
+  have hdef : isAbs Gen.PathGen.cmapPathDefault = true := by decide
+  have hsub : isAbs Gen.PathGen.cmapPkgSubdir = false := by decide
+  have hne : pkgdir ≠ [] := by intro h; rw [h] at hpkg; simp [isAbs] at hpkg
+  have hj : isAbs (join pkgdir Gen.PathGen.cmapPkgSubdir) = true := by
+    unfold join
+    simp only [hsub, Bool.false_eq_true, if_false]
+    split
+    · rw [isAbs_append _ _ hne]; exact hpkg
+    · rw [isAbs_append _ _ hne]; exact hpkg
+  obtain ⟨d, hd, hin⟩ := C15_cmap_confined _ name p hp
+  have hdabs : isAbs d = true := by
+    simp only [cmapDirs, Option.getD_none, List.mem_cons, List.not_mem_nil, or_false] at hd
+    rcases hd with rfl | rfl
+    · exact hdef
+    · exact hj
+  refine ⟨?_, ?_⟩
+  · obtain ⟨f, _, hn⟩ := hin
+    have h1 := congrArg Prod.fst hn
+    simp only [norm] at h1
+    rw [h1, hdabs]
+  · simp only [cmapDirs, Option.getD_none, List.mem_cons, List.not_mem_nil, or_false] at hd
+    rcases hd with rfl | rfl
+    · exact Or.inl hin
+    · exact Or.inr hin
+
+/-- Non-vacuity: package at `/p`, name `H`, `CMAP_PATH` not set. -/
+example : cmapProbes (cmapDirs none [47, 112]) [72] =
+    [[47, 117, 115, 114, 47, 115, 104, 97, 114, 101, 47, 112, 100, 102, 109, 105, 110, 101, 114, 47, 72, 46, 112, 105, 99, 107,
+      108, 101, 46, 103, 122],
+     [47, 112, 47, 99, 109, 97, 112, 47, 72, 46, 112, 105, 99, 107, 108, 101, 46, 103, 122]] := by decide
+
 end PdfVerif.Props.C15
